@@ -3,9 +3,10 @@
 //! property monitors (conservation, order, drops, deadlock, panic).
 //!
 //! stdin, one scenario per line:
-//!   <flavour> <cap> <runs> <seed> [trace] [pct|rand] [results] | P: ops | P: ops | C: ops ...
+//!   <flavour> <cap> <runs> <seed> [trace] [pct|rand] [results] [oneline] | P: ops | P: ops | C: ops ...
 //!   (`pct` / `rand` force that policy for every run instead of the 2:1 mix; `results` adds a
-//!    `results t0=[..] t1=[..]` line (API results of the traced run) right after the result line)
+//!    `results t0=[..] t1=[..]` line (API results of the traced run) right after the result line;
+//!    `oneline` joins all output lines of the scenario with ` ;; ` into one line)
 //! thread ops: s (send) ts (try_send) r (recv) tr (try_recv) rt (recv_timeout 20us)
 //!             D (drain: recv until Disconnected)  y (yield)
 //! stdout per scenario:
@@ -204,6 +205,7 @@ struct Scenario {
   trace: bool,
   force: Option<bool>,
   show_results: bool,
+  oneline: bool,
   threads: Vec<ThreadSpec>,
 }
 
@@ -226,6 +228,7 @@ fn parse(line: &str) -> Scenario {
     trace: head.get(4) == Some(&"trace"),
     force: if head[4.min(head.len())..].contains(&"pct") { Some(true) } else if head[4.min(head.len())..].contains(&"rand") { Some(false) } else { None },
     show_results: head[4.min(head.len())..].contains(&"results"),
+    oneline: head[4.min(head.len())..].contains(&"oneline"),
     threads,
   }
 }
@@ -465,36 +468,48 @@ fn main() {
         first = Some(r);
       }
     }
+    let mut lines: Vec<String> = Vec::new();
+    macro_rules! emit {
+      ($($a:tt)*) => { lines.push(format!($($a)*)) };
+    }
     let mut namer = Namer::new(&root);
     match fail {
       Some((c, d, i, seed, r)) => {
         let ch: Vec<String> = r.choices.iter().map(|c| c.to_string()).collect();
-        writeln!(out, "FAIL {c} run={i} seed={seed} :: {d} :: choices={}", ch.join(",")).unwrap();
+        emit!("FAIL {c} run={i} seed={seed} :: {d} :: choices={}", ch.join(","));
         if sc.show_results {
-          writeln!(out, "results {}", fmt_results(&r.results)).unwrap();
+          emit!("results {}", fmt_results(&r.results));
         }
         if sc.trace {
           namer.prime(&r.trace);
           for rec in &r.trace {
-            writeln!(out, "{}", format_rec(&mut namer, rec)).unwrap();
+            emit!("{}", format_rec(&mut namer, rec));
           }
-          writeln!(out, "end-trace").unwrap();
+          emit!("end-trace");
         }
       }
       None => {
-        writeln!(out, "ok runs={} steps={} events_recorded={} blocking_parks={}", sc.runs, steps, events, parks).unwrap();
+        emit!("ok runs={} steps={} events_recorded={} blocking_parks={}", sc.runs, steps, events, parks);
         if sc.show_results {
-          writeln!(out, "results {}", first.as_ref().map(|r| fmt_results(&r.results)).unwrap_or_default()).unwrap();
+          emit!("results {}", first.as_ref().map(|r| fmt_results(&r.results)).unwrap_or_default());
         }
         if sc.trace {
           if let Some(r) = first {
             namer.prime(&r.trace);
             for rec in &r.trace {
-              writeln!(out, "{}", format_rec(&mut namer, rec)).unwrap();
+              emit!("{}", format_rec(&mut namer, rec));
             }
           }
-          writeln!(out, "end-trace").unwrap();
+          emit!("end-trace");
         }
+      }
+    }
+    if sc.oneline {
+      // everything about this scenario on ONE output line (for line-oriented drivers)
+      writeln!(out, "{}", lines.join(" ;; ")).unwrap();
+    } else {
+      for l in &lines {
+        writeln!(out, "{l}").unwrap();
       }
     }
     out.flush().unwrap();
